@@ -14,6 +14,12 @@ MODES = {
     "ok_exit0": ('cat >/dev/null; printf "%s"; exit 0' % FORMATTED.replace("\n", "\\n"), True, True, ("code", 0), FORMATTED),
     "partial_exit3": ('cat >/dev/null; printf "%s"; exit 3' % FORMATTED.replace("\n", "\\n"), True, True, ("code", 3), FORMATTED),
     "exit1_nothing": ("cat >/dev/null; exit 1", True, True, ("code", 1), ""),
+    # a failing status with output that is well-formed Rust but is not the bindings (a formatter that died after some complete items)
+    "exit1_valid_rust": ('cat >/dev/null; printf "%s"; exit 1' % FORMATTED.replace("\n", "\\n"), True, True, ("code", 1), FORMATTED),
+    "exit2_valid_rust": ('cat >/dev/null; printf "%s"; exit 2' % FORMATTED.replace("\n", "\\n"), True, True, ("code", 2), FORMATTED),
+    "exit4_valid_rust": ('cat >/dev/null; printf "%s"; exit 4' % FORMATTED.replace("\n", "\\n"), True, True, ("code", 4), FORMATTED),
+    "exit255_valid_rust": ('cat >/dev/null; printf "%s"; exit 255' % FORMATTED.replace("\n", "\\n"), True, True, ("code", 255), FORMATTED),
+    "sigterm_valid_rust": ('cat >/dev/null; printf "%s"; kill -TERM $$' % FORMATTED.replace("\n", "\\n"), True, True, ("signal",), FORMATTED),
     "exit2_parse_error": ('cat >/dev/null; printf "half"; exit 2', True, True, ("code", 2), "half"),
     "exit101_everything": ('cat >/dev/null; printf "%s"; exit 101' % FORMATTED.replace("\n", "\\n"), True, True, ("code", 101), FORMATTED),
     "exit255": ("cat >/dev/null; exit 255", True, True, ("code", 255), ""),
@@ -37,7 +43,7 @@ MODES = {
 
 def run(ck):
     quick = ck.tier == "quick"
-    ck.coverage["rule"] = ("every enumerated fault mode of the formatter child (20 modes: streaming formatters that write while or before they read, absent / directory / not executable, exit 0/1/2/3/101/255 with nothing / partial / full output, "
+    ck.coverage["rule"] = ("every enumerated fault mode of the formatter child (25 modes: failing statuses with well-formed Rust output, streaming formatters that write while or before they read, absent / directory / not executable, exit 0/1/2/3/101/255 with nothing / partial / full output, "
                            "SIGKILL, SIGSEGV, invalid UTF-8 with exit 0 and 1, stdin closed early, stdin never read) x {small, multi-MB} bindings x {header comment on/off, raw lines}; "
                            "token comparison of the three formatters on repository headers; distinct by (mode, size, prefix options)")
     ck.trusted += ["harness fmt subcommand = Builder::with_rustfmt(fake).generate() + Bindings::write into a Vec",
@@ -73,9 +79,9 @@ def run(ck):
             paths[name] = p
 
         def fmt(formatter, path, nohdr, header, raw):
-            rc, o, e = sh2([exe, "fmt", formatter, enc(path) if path else "-", "1" if nohdr else "0", enc(header)] + [enc(r) for r in raw], timeout=300)
+            rc, o, e = sh2([exe, "fmt", formatter, enc(path) if path else "-", "1" if nohdr else "0", enc(header)] + [enc(r) for r in raw], timeout=240)
             if rc == 124:
-                return rc, "HANG (no result within 300 s)", e
+                return rc, "HANG (no result within 240 s)", e
             return rc, o.strip(), e
         # unformatted source for both sizes (formatter none, no prefix)
         src = {}
